@@ -137,6 +137,11 @@ def build(spec, incremental=False):
         coef = coef * (getattr(vform, spec['fn'])(arg) if spec['fn'] != 'id' else arg)
     if spec['par']:
         coef = coef * V.parameter('a')
+    if spec.get('nlet'):
+        # a let-variable that is reached only THROUGH another let-variable
+        k1 = V.let('k1', vform.as_expr(spec['nlet']['v']) * V.Jac[0, 0])
+        k2 = V.let('k2', 2.0 * k1)
+        coef = coef * k2
     if spec.get('mat_kind'):
         # one entry of a non-square matrix-valued parameter / input field
         shp = tuple(spec.get('mat_shape', [2, 3]))
@@ -194,7 +199,7 @@ def base_spec(s):
             'in_deriv': bool(s.choice(3) == 0), 'in_dpara': bool(s.choice(2)), 'in_comp': 0, 'vop': s.pick(['', '', '+']),
             'let': s.pick([None, None, {'name': 'B', 'sym': True}, {'name': 'B', 'sym': False}]), 'st': False,
             'mat_kind': s.pick(['', '', '', 'param', 'input']), 'mat_shape': s.pick([[2, 3], [3, 2], [2, 2]]),
-            'mat_ij': [s.choice(2), s.choice(2)],
+            'mat_ij': [s.choice(2), s.choice(2)], 'nlet': s.pick([None, None, None, {'v': 1.5}]),
             'par': bool(s.choice(2)), 'dax': s.choice(dim), 'dtimes': 0 if comps else s.choice(3), 'dpara': False,
             'meas': {'volume': 'dx', 'nomeasure': 'none', 'boundary': 'ds', 'boundary-nomeasure': 'none'}[kind],
             'op': s.pick(['', '+', '-']), 'c2': s.pick([1.5, 4.0])}
@@ -263,6 +268,9 @@ def mutations(spec):
     if spec['comps'] and spec['dim'] == 3:
         mut('component-count', comps=(2 if spec['comps'] == 3 else 3))
     mut('parameter', par=not spec['par'])
+    if spec.get('nlet'):
+        mut('nested-let-definition', nlet={'v': spec['nlet']['v'] + 1.0})
+        mut('nested-let-present', nlet=None)
     if spec.get('let') and spec['op']:
         mut('let-symmetric', let=dict(spec['let'], sym=not spec['let']['sym']))
         mut('let-name', let=dict(spec['let'], name={'B': 'C', 'C': 'B'}[spec['let']['name']]))
